@@ -12,17 +12,17 @@ from tools.vlib import Outcome
 from tools.props import c11_gen as G
 
 MANIFEST = {
-    "level_text": "Coq theorems (Properties/C11.v, no axioms) about a function-by-function Gallina transcription of validator_parser.rs (substring scanners over tokens.to_string(), the character-index/byte-index message slice with its panic, the five-step replace chain) and of schema_builder.rs (render_type, apply_*, escape_js_string): escape_js_string followed by JavaScript string-literal reading is the identity for every byte string; every parsed ValidatorAttributes value is rendered to a chain that reads back as exactly those constraints; fields without #[validate] get the bare schema; a field's chain depends on its own attributes only; one refutation lemma with a computed witness per known-finding class. The model is tied to /repo on every run by differential execution on generated structs (token strings, ValidatorAttributes, chains), and the extracted oracle (declared meta tree vs constraints read back from the emitted chain, exact decimal comparison, JS string decoding) is applied to the implementation's output.",
+    "level_text": "Coq theorems (Properties/C11.v, no axioms) about a function-by-function Gallina transcription of validator_parser.rs (substring scanners over tokens.to_string(), the character-index/byte-index message slice with its panic, the five-step replace chain) and of schema_builder.rs (render_type, apply_*, escape_js_string): escape_js_string followed by JavaScript string-literal reading is the identity for every byte string; every parsed ValidatorAttributes value is rendered to a chain that reads back as exactly those constraints; fields without #[validate] get the bare schema; a field's chain depends on its own attributes only; one refutation lemma with a computed witness per remaining known-finding class (seven), and positive statements on the witnesses of the two repaired ones (C11-5 multi-byte messages, C11-7 Option below Vec). The model is tied to /repo on every run by differential execution on generated structs (token strings, ValidatorAttributes, chains), and the extracted oracle (declared meta tree vs constraints read back from the emitted chain, exact decimal comparison, JS string decoding) is applied to the implementation's output.",
     "design_ref": "DESIGN.md section 5 C11",
-    "level_note": "Partial. Proved for all inputs: C11_escape_roundtrip (every byte string), C11_exact_render_partial (every ValidatorAttributes value with number-text bounds, any number of Option wrappers, on string / number / array-of-string fields: the emitted chain reads back as exactly its constraints), C11_none, C11_not_misattached, nine C11_kf*_refuted witnesses, C11_classes_separate. NOT proved: the scanning half of C11_exact_full_statement (token string -> ValidatorAttributes equals the declared values for every in-domain field outside the nine kf classes); it is kept as a Definition and checked at run time only (every generated case outside the classes must satisfy the extracted oracle; 0 failures tolerated). Arrays with non-string elements and nested arrays are covered by the run-time check only. f64 parse/Display is a Section variable in Coq and hand-written OCaml in the runner (compared with the harness on every case); decimals with more than 15 significant digits and integers beyond 2^53 are class C11-9. Trusted: syn/proc_macro2 printing (token strings compared on every case), python Rust-source printer (literal values cross-checked against syn::LitStr::value), the Zod/ECMAScript reading in Spec/C11Spec.v, ASCII-only trim().",
+    "level_note": "Partial. Proved for all inputs: C11_escape_roundtrip (every byte string), C11_exact_render_partial (every ValidatorAttributes value with number-text bounds, any number of Option wrappers, on string / number / array-of-string fields: the emitted chain reads back as exactly its constraints), C11_none, C11_not_misattached, seven C11_kf*_refuted witnesses, C11_fixed5_multibyte_message_ok, C11_fixed7_option_below_vec_ok, C11_fixed7_render_option_element (all inputs), C11_classes_separate. NOT proved: the scanning half of C11_exact_full_statement (token string -> ValidatorAttributes equals the declared values for every in-domain field outside the seven kf classes); it is kept as a Definition and checked at run time only (every generated case outside the classes must satisfy the extracted oracle; 0 failures tolerated). Arrays with non-string elements and nested arrays are covered by the run-time check only. f64 parse/Display is a Section variable in Coq and hand-written OCaml in the runner (compared with the harness on every case); decimals with more than 15 significant digits and integers beyond 2^53 are class C11-9. Trusted: syn/proc_macro2 printing (token strings compared on every case), python Rust-source printer (literal values cross-checked against syn::LitStr::value), the Zod/ECMAScript reading in Spec/C11Spec.v, ASCII-only trim().",
     "technique": "Rocq/Coq proof over hand-written model + correspondence check (extracted OCaml vs Rust harness and real CLI)"
 }
 
 RULE = ("corpus: every known-finding witness and regression case; exhaustive: every subset/order of length{min,max,message} x email x url "
         "on String/Option<String>, range subsets on numbers, length subsets on Vec shapes, one attribute or one per validator; "
         "offsets: a 2-, 3-, 4-byte character at every offset of ASCII messages up to 4 (quick) / 8 (thorough) characters; "
-        "clean: random structs of 1-5 fields outside every known class; wild: random structs with trigger-bearing messages, negative/"
-        "large bounds, raw/rich literals, Option-below-Vec types, other validators; cli: the real binary in Zod mode on generated projects. "
+        "clean: random structs of 1-5 fields outside every known class (multi-byte messages and Option-below-Vec types included since their repair); "
+        "wild: random structs with trigger-bearing messages, negative/large bounds, raw/rich literals, other validators; cli: the real binary in Zod mode on generated projects. "
         "A struct is non-trivial when at least one field carries #[validate(...)]; distinct = distinct structs")
 TRUSTED = [
     "Spec/C11Spec.v: the reading of Zod method chains (.min/.max/.email/.url/.optional, { message: <string literal> }) and of JavaScript string escapes is a model of Zod/ECMAScript, not proved against them",
@@ -32,9 +32,10 @@ TRUSTED = [
 ASSUMPTIONS = ["in-domain fields carry at most one length/range/email/url validator, each applicable to the field's type (validator crate rules)",
                "char::is_whitespace beyond ASCII is not modelled in trim()/trim_start()"]
 
-KF_IDS = ["C11-1", "C11-2", "C11-3", "C11-4", "C11-5", "C11-6", "C11-7", "C11-8", "C11-9"]
-# when several triggers are present the finding that explains a panic / the earliest pipeline stage is named
-KF_PRIORITY = [4, 1, 5, 0, 8, 2, 3, 6, 7]
+# the order of Spec/C11Spec.v kf_flags (C11-5 and C11-7 were repaired and have no class any more)
+KF_IDS = ["C11-1", "C11-2", "C11-3", "C11-4", "C11-6", "C11-8", "C11-9"]
+# when several triggers are present the earliest pipeline stage is named
+KF_PRIORITY = [1, 4, 0, 6, 2, 3, 5]
 
 
 def corpus_cases():
@@ -126,7 +127,7 @@ def evaluate(structs, check_whole=True):
                 ok = False
                 cls = [k for k in KF_PRIORITY if flags[k] == "true"]
                 kfs.append(KF_IDS[cls[0]] if cls else None)
-                d["classes"] = [KF_IDS[k] for k in range(9) if flags[k] == "true"]
+                d["classes"] = [KF_IDS[k] for k in range(len(KF_IDS)) if flags[k] == "true"]
             if not (f_ok and f_corr) or len(details) < 2:
                 details.append(d)
         if check_whole and ("panic" in whole) != any_panic:
@@ -234,9 +235,8 @@ def evaluate_cli_one(structs, tag="c11"):
 
 
 def no_panic_struct(s):
-    """the CLI aborts on a panic; keep structs whose message literals are ASCII"""
-    return all(ord(c) < 128 for f in s["fields"] for l in G.declared_literals(f) for c in l) and \
-        all(ord(c) < 128 for c in G.struct_rust(s["fields"]))
+    """since the char_indices repair no validator input panics; every struct goes to the CLI stream"""
+    return True
 
 
 def run(rep):
